@@ -219,10 +219,19 @@ def canon_perm_cases(ctx):
             schemas += list((featgen.rand_spec(r).get("components", {}).get("schemas", {}) or {}).values())
         except Exception:
             pass
-    cases = []
-    for s in schemas:
-        cases.append({"op": "cache.canon_perm", "in": {"schemas": [s] + [shuffle_deep(r, s) for _ in range(3)]}})
-    return cases
+    # primary data = ONE schema + a seed; the re-orderings are derived in `canon_prepare`, so that shrinking the schema keeps
+    # all four documents re-orderings of each other
+    return [{"op": "cache.canon_perm", "in": {"schema": s, "shuffle_seed": r.randint(0, 2 ** 31)}} for s in schemas]
+
+
+def canon_prepare(case):
+    d = case["in"]
+    if case["op"] != "cache.canon_perm" or "schema" not in d:
+        return case
+    import random
+    rr = random.Random(d.get("shuffle_seed", 0))
+    assert isinstance(d["schema"], dict)
+    return {"op": case["op"], "in": {"schemas": [d["schema"]] + [shuffle_deep(rr, d["schema"]) for _ in range(3)]}}
 
 
 def run(ctx):
@@ -238,10 +247,12 @@ def run(ctx):
     # K: the cache key of re-ordered schemas (real CanonicalSchema::from_schema vs Cache.canon, judged equal per case)
     if driver_ok and ctx.build_harness(["k_cache"]):
         kc = canon_perm_cases(ctx)
+        ctx.prepare = canon_prepare
         for i in range(0, len(kc), 500):
             ctx.classify(ctx.evaluate(kc[i:i + 500]), tie="K")
             if ctx.violations:
                 break
+        ctx.prepare = None
     if ctx.build_cli():
         specs = []
         fx = FIXTURES if not ctx.quick else ["petstore.json"] + r.sample([f for f in FIXTURES if f != "petstore.json"], 3)
